@@ -10,8 +10,8 @@ use sv_parser_parser::verif_hooks as hooks;
 
 pub fn cases(tier: Tier) -> u64 {
     match tier {
-        Tier::Quick => 96,
-        Tier::Thorough => 2400,
+        Tier::Quick => 256,
+        Tier::Thorough => 4000,
         Tier::Tiny => 2,
     }
 }
